@@ -120,6 +120,18 @@ Theorem C14_eq_reflexive : forall sc o, eq_refl_ok sc (PMsg o) = true -> obj_eq 
 Proof. exact obj_eq_refl. Qed.
 Print Assumptions C14_eq_reflexive.
 
+Theorem C14_copy_equal : forall sc, wf_schema sc = true -> forall o,
+  shaped_top sc o = true -> eq_refl_ok sc (PMsg o) = true ->
+  obj_eq sc (copy sc o) o = true /\ obj_eq sc o (copy sc o) = true.
+Proof. exact copy_equal. Qed.
+Print Assumptions C14_copy_equal.
+
+Theorem C14_deepcopy_equal : forall sc, wf_schema sc = true -> forall o,
+  shaped_obj sc o = true -> eq_refl_ok sc (PMsg o) = true ->
+  obj_eq sc (deepcopy sc o) o = true /\ obj_eq sc o (deepcopy sc o) = true.
+Proof. exact deepcopy_equal. Qed.
+Print Assumptions C14_deepcopy_equal.
+
 (* observers and copies in any order *)
 Theorem C14_copy_after_observers : forall sc, wf_schema sc = true -> forall o bs,
   shaped_top sc (observe_all sc o bs) = true ->
